@@ -16,6 +16,11 @@ Tie (every run):
     (integral) and the expected set of instances;
   * the premise of the reassembly theorem (score separation) is MEASURED on the
     real score tables of every scene.
+  * round 4: the scene model is `forward_instances` (groups over the edge types C17's
+    toposort returns); every tested skeleton is checked to be a rooted tree in Coq
+    (is_tree), the processed edge types are compared with the real toposort_edges,
+    and a stream of trees with ONE MIS-ORIENTED edge (outside the domain) is run as
+    correspondence cases; ragged score tables must be rejected by table_alt1.
 Oracle: the property statement evaluated on forward's output for every scene.
 """
 from __future__ import annotations
@@ -49,6 +54,28 @@ def random_tree(rng, n):
     es = [(order[rng.randrange(i)], order[i]) for i in range(1, n)]
     rng.shuffle(es)
     return es
+
+
+def misoriented_tree(rng, n):
+    """A tree on n >= 3 nodes with ONE edge written the other way round, so that a node has two
+    incoming edges: an undirected tree, but NOT a rooted tree listed parent -> child (outside C17's
+    `arborescence`, outside the property's "tree skeleton").  Returns (listing, rooted listing): the
+    poses are drawn from the rooted listing, inference sees the mis-oriented one."""
+    while True:
+        es = random_tree(rng, n)
+        dsts = {v for _, v in es}
+        root = next(u for u, _ in es if u not in dsts)
+        cand = [i for i, (u, _v) in enumerate(es) if u != root]
+        if cand:
+            i = rng.choice(cand)
+            fl = list(es)
+            fl[i] = (es[i][1], es[i][0])
+            return fl, es
+
+
+def real_toposort(im, edges):
+    """sorted_edge_inds of the REAL toposort_edges for an edge listing."""
+    return [int(k) for k in im.pg.toposort_edges([im.pg.EdgeType(u, v) for u, v in edges])]
 
 
 # ------------------------------------------------------------------ geometry of a scene
@@ -282,7 +309,8 @@ def gen_pose(rng, edges, n_nodes, cs, lmin_cells, lmax_cells, long=None):
     return [pos[j] for j in range(n_nodes)]
 
 
-def gen_scene(rng, thorough=False, crowded=False, fixed=None, skeleton=None, long_edges=False, attempts=None):
+def gen_scene(rng, thorough=False, crowded=False, fixed=None, skeleton=None, long_edges=False, attempts=None,
+              pose_edges=None):
     """One in-domain scene (all animals in general position, on a jittered lattice
     with spacing >= 3x the largest animal extent, outside the border band).
     crowded=True: 5-6 nodes, 4-5 animals, few missing parts, so that a frame has MORE THAN 16
@@ -312,6 +340,8 @@ def gen_scene(rng, thorough=False, crowded=False, fixed=None, skeleton=None, lon
             n_nodes = rng.randint(5, 6) if crowded else rng.randint(2, 6)
             edges = random_tree(rng, n_nodes)
         sc["n_nodes"], sc["edges"] = n_nodes, list(edges)
+        if pose_edges is not None:                   # mis-oriented listing: poses from the rooted listing
+            sc["pose_edges"] = [list(e) for e in pose_edges]
         batch = rng.choice([1, 1, 2, 3])
         n_want = rng.randint(4, 5) if crowded else rng.randint(1, 5)
         frames = []
@@ -398,7 +428,7 @@ def place_long(rng, sc, g, border, vw, vh):
 
 def place_animals(rng, sc, g, n_want, border, vw, vh, crowded=False):
     cs, f = sc["cs"], g["f"]
-    n_nodes, edges = sc["n_nodes"], sc["edges"]
+    n_nodes, edges = sc["n_nodes"], [tuple(e) for e in (sc.get("pose_edges") or sc["edges"])]
     for _try in range(30):
         lmax = 3.0 if crowded else rng.choice([3.0, 4.0, 6.0])
         poses = [gen_pose(rng, edges, n_nodes, cs, 2.3, lmax) for _ in range(n_want)]
@@ -1403,8 +1433,14 @@ def canon_instances(insts):
 
 def compare_scene(sc, g, b, model, res):
     """Composed model (expected instances with exact coordinates / rough cells) against forward."""
-    tie, band, coinc, minst = model
+    tie, band, coinc, minst, is_tree, procs, pinst = model
     animals = sc["frames"][b]
+    rooted = "pose_edges" not in sc
+    if bool(is_tree) != rooted:
+        return f"skeleton {sc['edges']}: C17 is_tree (Coq) = {bool(is_tree)}, generator says rooted tree = {rooted}"
+    if rooted and (not all(procs) or minst != pinst):
+        return (f"rooted tree {sc['edges']}: the model does not process every edge type ({procs}) or forward_instances "
+                f"differs from expected_instances (contradicts c03_processed_all_for_trees / c03_forward_instances_tree)")
     py_tie = any(is_tie(c, sc["cs"]) for a in animals for p in a if visible(p) for c in to_input(g, p))
     py_band = any(sel_band(sc, g, p) for a in animals for p in a if visible(p))
     py_coinc = any(sel_coincident(sc, g, a) for a in animals)
@@ -1651,19 +1687,94 @@ def check(run: core.Run) -> int:
         for b, animals in enumerate(sc["frames"]):
             sterms.append(scene_term(sc, g, animals))
             sindex.append((si, b))
+    # ---- 3b. OUT-OF-DOMAIN correspondence: trees with one mis-oriented edge (review finding 1).  The model
+    # (forward_instances = groups over the edge types toposort_edges returns) must predict forward also
+    # there; the property's oracle is NOT applied (not a rooted tree), but the statement of
+    # c03_reassembly_processed_partial (groups over the PROCESSED visible edges) is.  Own RNG (derived from
+    # the seed), so that the in-domain stream above does not depend on this stream.
+    import random as _random
+    mrng = _random.Random((run.seed * 1000003) ^ 0xC03F1)
+    mis = []
+    for _i in range(200 if thorough else 24):
+        nn = mrng.randint(3, 6)
+        fl, rooted_listing = misoriented_tree(mrng, nn)
+        msc = gen_scene(mrng, thorough, skeleton=(nn, fl), pose_edges=rooted_listing)
+        mres = run_scene(im, msc, from_config=bool(_i % 2))
+        mis.append((msc, mres))
+        for b, animals in enumerate(msc["frames"]):
+            sterms.append(scene_term(msc, input_geometry(msc), animals))
+            sindex.append((n_sc + len(mis) - 1, b))
+    # malformed (ragged / empty) score tables: table_alt1 must reject them (the guard table_wf)
+    ragged = [([0, 1], [0, 1], []), ([0, 1], [0, 1], [[0.5]]), ([0, 1], [0, 1], [[0.5, 0.0]]),
+              ([0], [0, 1], [[0.5]]), ([0, 1], [0], [[0.5], [0.0], [0.0]])]
     if len(aterms) > 4000:                       # alt1 in Coq on a deterministic subsample
         keep = sorted(rng.sample(range(len(aterms)), 4000))
         aterms, aindex = [aterms[i] for i in keep], [aindex[i] for i in keep]
-    smodel = core.coq_eval_sharded(PREAMBLE, sterms + aterms, "run", "rres", shard=200, jobs=12)
-    amodel = smodel[len(sterms):]
+    rterms = [alt1_term(s_, d_, t_) for s_, d_, t_ in ragged]
+    smodel = core.coq_eval_sharded(PREAMBLE, sterms + aterms + rterms, "run", "rres", shard=200, jobs=12)
+    amodel = smodel[len(sterms):len(sterms) + len(aterms)]
+    rmodel = smodel[len(sterms) + len(aterms):]
+    run.obligation("table_alt1 (Coq) rejects ragged / empty score tables (guard table_wf; c03_table_alt1_sound needs it)",
+                   not any(bool(m) for m in rmodel), f"answers {rmodel}")
+    all_scenes = scenes + [m_[0] for m_ in mis]
+    all_results = results + [m_[1] for m_ in mis]
     scene_diff = {}
+    scene_model = {}
     for (si, b), m in zip(sindex, smodel):
         try:
-            d = compare_scene(scenes[si], input_geometry(scenes[si]), b, m, results[si])
+            d = compare_scene(all_scenes[si], input_geometry(all_scenes[si]), b, m, all_results[si])
         except Exception as e:
             d = f"frame {b}: output cannot be compared ({type(e).__name__}: {e})"
+        scene_model.setdefault(si, []).append(m)
         if d and si not in scene_diff:
             scene_diff[si] = d
+    # the edge types the model processes == the REAL toposort_edges, on every skeleton of the run
+    topo_bad = []
+    for si, sc_ in enumerate(all_scenes):
+        procs = scene_model[si][0][5]
+        try:
+            real = sorted(real_toposort(im, sc_["edges"]))
+        except Exception as e:
+            real = f"{type(e).__name__}: {e}"
+        if real != [k for k, p_ in enumerate(procs) if p_]:
+            topo_bad.append(f"{sc_['edges']}: toposort_edges {real}, model processed {procs}")
+    run.obligation("correspondence: the edge types the model assembles (processed, through C17's toposort) == the REAL "
+                   "toposort_edges on every skeleton of the run (rooted and mis-oriented)", not topo_bad, "; ".join(topo_bad[:2]))
+    if topo_bad:
+        run.proof_broken.append("processed edge types: " + topo_bad[0][:500])
+    # mis-oriented trees: model == forward; groups over the processed edges hold; the property's groups do not
+    mis_bad, mis_lost, mis_dom = [], 0, 0
+    for mi, (msc, mres) in enumerate(mis):
+        si = n_sc + mi
+        run.case(scene_json(msc), nontrivial=True)
+        try:
+            dom = ideal_separation(msc)[0] or ("raises" not in mres and measure_premise(msc, mres)[0])
+        except Exception:
+            dom = False
+        if not dom:
+            continue
+        mis_dom += 1
+        procs = scene_model[si][0][5]
+        pe = [tuple(e) for e, p_ in zip(msc["edges"], procs) if p_]
+        d = scene_diff.get(si)
+        try:
+            d = d or oracle(dict(msc, edges=pe), mres)
+        except Exception as e:
+            d = f"output cannot be interpreted ({type(e).__name__}: {e})"
+        if d:
+            mis_bad.append(f"{d[:400]} ; scene {json.dumps(scene_json(msc))[:600]}")
+        elif any(m[3] != m[6] for m in scene_model[si]) and oracle(msc, mres):
+            mis_lost += 1                      # the lost edge mattered: forward's groups are not the property's groups
+    for d in mis_bad[:2]:
+        run.log("mis-oriented tree disagreement: " + d)
+    if mis_bad:
+        run.proof_broken.append("correspondence on mis-oriented trees (forward_instances over processed edges): " + mis_bad[0])
+    run.obligation("correspondence OUTSIDE the domain: on trees with a mis-oriented edge forward_instances (groups over the "
+                   "edge types toposort_edges returns) == BottomUpInferenceModel.forward, and the statement of "
+                   "c03_reassembly_processed_partial holds on forward's output; the difference to the property's groups "
+                   "is observed (not a finding: 'tree skeleton' = rooted tree, C17's arborescence)",
+                   not mis_bad and mis_lost >= (20 if thorough else 3),
+                   f"{len(mis_bad)} disagreements; {mis_dom}/{len(mis)} well-separated, {mis_lost} with a lost part")
     # F24 selector and the max edge length of every scene's OWN PAF tensor, decided in Coq
     lterms, lwant = [], []
     corpus_scenes = [scene_from_json(json.load(open(f))["scene"]) for f in sorted((core.CORPUS / "C03").glob("*.json"))]
@@ -1837,6 +1948,8 @@ def check(run: core.Run) -> int:
                               "premise_holds": geo_edges_hold, "via_margin": geo_margin, "via_saturated_only": geo_sat,
                               "whole_scenes": geo_scene_holds, "R2_rule": "w(R2) = 1e-3", "eps": GEO_EPS},
         "frames_with_more_than_16_peaks": big_frames,
+        "misoriented_tree_scenes": {"generated": len(mis), "well_separated": mis_dom, "lost_part_observed": mis_lost,
+                                    "ragged_tables_rejected": len(ragged)},
         "state_across_calls": {"long_lived_models": len(pool.models), "scenes_through_long_lived_models": len(pooled_idx),
                                "models_small_then_3x_larger": small_then_large, "consecutive_same_grid_shape_other_stride": shape_pairs,
                                "long_edge_scenes": n_long, "scenes_repeated_at_end": len(again), "outputs_held": held_now,
